@@ -37,12 +37,13 @@ type tierCfg struct {
 }
 
 var tiers = map[string]tierCfg{
-	"quick":    {MaxPaths: 4000, MaxSteps: 3_000_000, BranchTO: 1500 * time.Millisecond, AssertTO: 10 * time.Second, MaxPower: 8, TaskTime: 8 * time.Minute},
+	"quick":    {MaxPaths: 4000, MaxSteps: 3_000_000, BranchTO: 600 * time.Millisecond, AssertTO: 10 * time.Second, MaxPower: 8, TaskTime: 8 * time.Minute},
 	"thorough": {MaxPaths: 60000, MaxSteps: 10_000_000, BranchTO: 3 * time.Second, AssertTO: 120 * time.Second, MaxPower: 64, TaskTime: 100 * time.Minute},
 }
 
 type taskResult struct {
 	Harness string
+	Fn      string
 	Eng     *interp.Engine
 	Wall    time.Duration
 	Err     string
@@ -81,7 +82,7 @@ func cmdCheck(args []string) int {
 	fs := flag.NewFlagSet("check", flag.ExitOnError)
 	prop := fs.String("prop", "", "property id (C01..C20)")
 	tier := fs.String("tier", "", "quick|thorough (default: $VERIF_TIER or quick)")
-	workers := fs.Int("workers", 12, "parallel harness tasks")
+	workers := fs.Int("workers", 14, "parallel harness tasks")
 	only := fs.String("only", "", "run only harnesses whose name contains this")
 	verbose := fs.Bool("v", false, "print every path")
 	noReplay := fs.Bool("noreplay", false, "skip native replay (debugging only; never registered)")
@@ -137,17 +138,86 @@ func cmdCheck(args []string) int {
 		}()
 	}
 
-	results := make([]*taskResult, len(hs))
+	// split every harness into independent tasks along its leading nd.Choice calls
+	type task struct {
+		h      *ssa.Function
+		forced []int
+	}
+	var tasks []task
+	var tmu sync.Mutex
+	var pwg sync.WaitGroup
+	for _, h := range hs {
+		pwg.Add(1)
+		go func(h *ssa.Function) {
+			defer pwg.Done()
+			lim := interp.Limits{MaxPaths: 1, MaxSteps: tc.MaxSteps, BranchTO: tc.BranchTO, AssertTO: tc.BranchTO, MaxPower: tc.MaxPower, TaskDeadline: time.Now().Add(time.Minute)}
+			eng, err := interp.NewEngine(h.Name(), isIdeal(h.Name()), solverCmd, lim)
+			var ar []int
+			if err == nil {
+				eng.Thorough = *tier == "thorough"
+				eng.Probe = true
+				eng.S.Abstract = !isIdeal(h.Name()) && !strings.HasSuffix(h.Name(), "_X")
+				ar = l.P.LeadingChoices(eng, h)
+				eng.Close()
+			}
+			// use leading choices while the number of tasks stays <= 48
+			n := 1
+			var use []int
+			for _, a := range ar {
+				if n*a > 48 {
+					break
+				}
+				n *= a
+				use = append(use, a)
+			}
+			var combos [][]int
+			var rec func(prefix []int)
+			rec = func(prefix []int) {
+				if len(prefix) == len(use) {
+					combos = append(combos, append([]int(nil), prefix...))
+					return
+				}
+				for k := 0; k < use[len(prefix)]; k++ {
+					rec(append(prefix, k))
+				}
+			}
+			rec(nil)
+			tmu.Lock()
+			for _, c := range combos {
+				tasks = append(tasks, task{h, c})
+			}
+			tmu.Unlock()
+		}(h)
+	}
+	pwg.Wait()
+	sort.Slice(tasks, func(i, j int) bool {
+		if tasks[i].h.Name() != tasks[j].h.Name() {
+			return tasks[i].h.Name() < tasks[j].h.Name()
+		}
+		return fmt.Sprint(tasks[i].forced) < fmt.Sprint(tasks[j].forced)
+	})
+	fmt.Printf("%d harness(es) split into %d task(s)\n", len(hs), len(tasks))
+
+	results := make([]*taskResult, len(tasks))
 	sem := make(chan struct{}, *workers)
 	var wg sync.WaitGroup
-	for idx, h := range hs {
+	for idx, tk := range tasks {
 		wg.Add(1)
-		go func(idx int, h *ssa.Function) {
+		go func(idx int, h *ssa.Function, forced []int) {
 			defer wg.Done()
 			sem <- struct{}{}
 			defer func() { <-sem }()
 			t0 := time.Now()
-			tr := &taskResult{Harness: h.Name()}
+			name := h.Name()
+			for k, f := range forced {
+				if k == 0 {
+					name += "#"
+				} else {
+					name += "."
+				}
+				name += strconv.Itoa(f)
+			}
+			tr := &taskResult{Harness: name, Fn: h.Name()}
 			results[idx] = tr
 			lim := interp.Limits{MaxPaths: tc.MaxPaths, MaxSteps: tc.MaxSteps, BranchTO: tc.BranchTO, AssertTO: tc.AssertTO,
 				MaxPower: tc.MaxPower, TaskDeadline: time.Now().Add(tc.TaskTime)}
@@ -158,16 +228,18 @@ func cmdCheck(args []string) int {
 			}
 			defer eng.Close()
 			eng.Thorough = *tier == "thorough"
+			eng.Forced = forced
+			eng.S.Abstract = !isIdeal(h.Name()) && !strings.HasSuffix(h.Name(), "_X")
 			eng.SetKnown(known)
 			tr.Eng = eng
 			var progress func(string)
 			if *verbose {
-				progress = func(s string) { fmt.Printf("  [%s] %s\n", h.Name(), s) }
+				progress = func(s string) { fmt.Printf("  [%s] %s\n", name, s) }
 			}
 			l.P.Explore(eng, h, progress)
 			tr.Wall = time.Since(t0)
-			fmt.Printf("task %-40s paths=%d branches=%d %.1fs solver=%.1fs(q=%d)\n", h.Name(), eng.Paths, eng.Branches, tr.Wall.Seconds(), eng.S.Stats.Time.Seconds(), eng.S.Stats.Queries)
-		}(idx, h)
+			fmt.Printf("task %-44s paths=%d branches=%d %.1fs solver=%.1fs(q=%d) exact(q=%d)\n", name, eng.Paths, eng.Branches, tr.Wall.Seconds(), eng.S.Stats.Time.Seconds(), eng.S.Stats.Queries, eng.XStats.Queries)
+		}(idx, tk.h, tk.forced)
 	}
 	wg.Wait()
 	rwg.Wait()
